@@ -72,7 +72,11 @@ func HashName(field string) string {
 func RemoveElementAfter(slice []string, marker string) []string {
 	for i, v := range slice {
 		if v == marker && i+1 < len(slice) {
-			return append(slice[:i+1], slice[i+2:]...)
+			// build the result in a fresh slice: appending in place would overwrite the caller's
+			// key path, which is still used after the operator lookup
+			out := make([]string, 0, len(slice)-1)
+			out = append(out, slice[:i+1]...)
+			return append(out, slice[i+2:]...)
 		}
 	}
 	return slice
